@@ -31,13 +31,19 @@ type Op struct {
 	L     int           `json:"l,omitempty"`
 	S     int           `json:"s,omitempty"`
 	Via   bool          `json:"via_clone,omitempty"` // pushself: take the part from a clone of the receiver
+	// Q (quiet): the receivers are not looked at after this operation, so that
+	// the next operation meets whatever state this one left behind unobserved.
+	Q bool `json:"q,omitempty"`
 }
 
 // Scenario is one closed C02 history.
 type Scenario struct {
 	Kind string `json:"kind"`
 	L    int    `json:"l"`
-	Ops  []Op   `json:"ops"`
+	// LB, when not 0, is the layout receiver B starts with (A starts with L):
+	// Swap then exchanges values of different layouts and strides.
+	LB  int  `json:"lb,omitempty"`
+	Ops []Op `json:"ops"`
 }
 
 type prop struct{}
@@ -56,7 +62,7 @@ func (prop) Plan(tier string) []core.Phase {
 func (prop) Describe() core.Description {
 	return core.Description{
 		Level: "exploration",
-		Rule: "A scenario is a receiver kind (Polygon, MultiPoint, MultiLineString, MultiPolygon, GeometryCollection), a layout (XY, XYZ, XYM, XYZM, Layout(5), Layout(6)) and a history of up to 40 operations on two receivers: Push of a generated part (empty with a per-run probability: empty ring/line/point, polygon without rings, polygon with empty rings; built through New*Flat, SetCoords or Push), Push of a part of every other layout (must be rejected), Push of a part obtained from the receiver itself or from its clone (self-aliasing), variadic collection Push with a wrong-layout member at any position, SetLayout, Reverse, Swap(A,B), Clone (either compared and dropped, or taking the other receiver's place so that original and clone are both pushed to for the rest of the history), SetSRID; for MultiPolygon also polygons that live on (built by ring pushes, pushed into a receiver, taken back out through Polygon(i), then pushed onto again), each checked against its own push history. After every operation both receivers are observed completely. A run is non-trivial when at least two pushes succeeded and the history contains an empty part or a rejected push.",
+		Rule: "A scenario is a receiver kind (Polygon, MultiPoint, MultiLineString, MultiPolygon, GeometryCollection), a layout (XY, XYZ, XYM, XYZM, Layout(5), Layout(6)) and a history of up to 40 operations on two receivers: Push of a generated part (empty with a per-run probability: empty ring/line/point, polygon without rings, polygon with empty rings; built through New*Flat, SetCoords or Push), Push of a part of every other layout (must be rejected), Push of a part obtained from the receiver itself or from its clone (self-aliasing), variadic collection Push with a wrong-layout member at any position, SetLayout, Reverse, Swap(A,B), Clone (either compared and dropped, or taking the other receiver's place so that original and clone are both pushed to for the rest of the history), SetSRID; receiver B may start with another layout than A (Swap then exchanges values of different strides); operations may be left unobserved (per-run probability 0, 0.3 or 0.8) so that the next one meets the state they left behind; for MultiPolygon also polygons that live on (built by ring pushes, pushed into a receiver, taken back out through Polygon(i), then pushed onto again), each checked against its own push history. After every operation that is not left unobserved both receivers are observed completely (all part accessors first, then their results). A run is non-trivial when at least two pushes succeeded and the history contains an empty part or a rejected push.",
 		StateMeasure: "distinct (kind, layout, emptiness pattern of the final parts of A, operation-kind sequence) tuples",
 		Assumptions: []string{
 			"part accessors return new objects, so only type, layout and coordinates of a part are compared (for collections the member itself)",
@@ -80,6 +86,9 @@ func (prop) Decode(raw []byte) (any, error) {
 	}
 	if _, ok := partType[s.Kind]; !ok && s.Kind != mgeom.GC {
 		return nil, fmt.Errorf("bad kind %q", s.Kind)
+	}
+	if s.LB < 0 || s.LB > 6 || (s.LB != 0 && s.Kind == mgeom.GC) {
+		return nil, fmt.Errorf("bad layout of receiver B")
 	}
 	if s.L < 1 || s.L > 6 {
 		return nil, fmt.Errorf("bad layout")
@@ -191,17 +200,25 @@ func (prop) Generate(r *prng.Rand, phase string) any {
 		}
 		return cfg.Gen(r, partType[s.Kind], l, 0)
 	}
+	persistent := s.Kind == mgeom.MPg && r.Chance(0.5)
+	cur := [2]int{s.L, s.L} // the layout each receiver has when the next operation is generated
+	if !persistent && s.Kind != mgeom.GC && r.Chance(0.25) {
+		s.LB = 1 + r.Intn(6)
+		cur[1] = s.LB
+	}
+	curR := 0
 	otherLayout := func() int {
 		for {
 			l := 1 + r.Intn(6)
-			if l != s.L {
+			if l != cur[curR] {
 				return l
 			}
 		}
 	}
-	persistent := s.Kind == mgeom.MPg && r.Chance(0.5)
+	quiet := []float64{0, 0, 0.3, 0.8}[r.Intn(4)]
 	for i := 0; i < nops; i++ {
-		op := Op{R: r.Pick(3, 1)}
+		op := Op{R: r.Pick(3, 1), Q: r.Chance(quiet)}
+		curR = op.R
 		if persistent && r.Chance(0.5) {
 			// polygons that live on: X[0], X[1] are built by ring pushes, pushed
 			// into receivers, taken back out through the accessor, and grow again
@@ -229,7 +246,7 @@ func (prop) Generate(r *prng.Rand, phase string) any {
 		switch k {
 		case 0:
 			op.K = "push"
-			l := s.L
+			l := cur[op.R]
 			if r.Chance(pWrong) {
 				l = otherLayout()
 			}
@@ -258,6 +275,7 @@ func (prop) Generate(r *prng.Rand, phase string) any {
 				op.L = []int{0, s.L, s.L, otherLayout()}[r.Intn(4)]
 			} else {
 				op.K = "swap"
+				cur[0], cur[1] = cur[1], cur[0]
 			}
 		case 4:
 			if s.Kind == mgeom.GC {
@@ -268,6 +286,7 @@ func (prop) Generate(r *prng.Rand, phase string) any {
 			} else {
 				// the clone lives on as the other receiver
 				op.K = "cloneover"
+				cur[1-op.R] = cur[op.R]
 			}
 		case 5:
 			op.K = "setsrid"
@@ -281,7 +300,7 @@ func (prop) Generate(r *prng.Rand, phase string) any {
 			}
 		default:
 			op.K = "push"
-			op.Part = part(s.L)
+			op.Part = part(cur[op.R])
 		}
 		s.Ops = append(s.Ops, op)
 	}
@@ -517,9 +536,15 @@ func observeAll(res *core.Result, kind string, name string, r *lrecv, m *recv, a
 			ok = fail("part-count", "", "reports %d parts, %d were pushed", n, len(m.Parts))
 			return
 		}
+		// all accessor results are obtained first and looked at afterwards, as a
+		// caller collecting the parts does
+		gots := make([]geom.T, len(m.Parts))
+		for i := range m.Parts {
+			gots[i] = r.part(i)
+		}
 		emptyRun := 0
 		for i, want := range m.Parts {
-			got := r.part(i)
+			got := gots[i]
 			res.Steps++
 			obs, err := mgeom.Observe(got)
 			if err != nil {
@@ -590,8 +615,14 @@ func (prop) Execute(scAny any, phase string, log *core.Log) core.Result {
 	if s.L > 4 {
 		res.Count("probe:layout>4", 1)
 	}
-	lib := [2]*lrecv{newRecv(s.Kind, l), newRecv(s.Kind, l)}
-	mod := [2]*recv{{L: s.L}, {L: s.L}}
+	lb := s.LB
+	if lb == 0 {
+		lb = s.L
+	} else if lb != s.L {
+		res.Count("probe:receivers-of-different-layouts", 1)
+	}
+	lib := [2]*lrecv{newRecv(s.Kind, l), newRecv(s.Kind, geom.Layout(lb))}
+	mod := [2]*recv{{L: s.L}, {L: lb}}
 	if s.Kind == mgeom.GC {
 		// a fresh collection has no fixed layout
 		mod[0].L, mod[1].L = 0, 0
@@ -770,7 +801,10 @@ func (prop) Execute(scAny any, phase string, log *core.Log) core.Result {
 			if s.Kind == mgeom.GC {
 				wantOK = !mv.Fixed || pm.EffLayout() == mv.L
 			}
-			before, _ := mgeom.Observe(rv.t())
+			var before *mgeom.Geom
+			if !op.Q {
+				before, _ = mgeom.Observe(rv.t())
+			}
 			var err error
 			if p := core.Guard(func() { err = rv.push(pg) }); p != "" {
 				res.Fail("panic", "panic:"+s.Kind+":"+core.PanicSite(p), "%s: Push panicked: %s; part %s", after, p, pm)
@@ -814,6 +848,9 @@ func (prop) Execute(scAny any, phase string, log *core.Log) core.Result {
 				if !errors.As(err, &lm) || int(lm.Got) != pm.EffLayout() || int(lm.Want) != mv.L {
 					res.Fail("wrong-error", "wrong-error:"+s.Kind, "%s: Push of layout %s into layout %s returned %#v, want ErrLayoutMismatch{Got: %s, Want: %s}", after, geom.Layout(pm.EffLayout()), geom.Layout(mv.L), err, geom.Layout(pm.EffLayout()), geom.Layout(mv.L))
 					return res
+				}
+				if op.Q {
+					break // the comparison with the unchanged model comes with the next observation
 				}
 				afterObs, oerr := mgeom.Observe(rv.t())
 				if oerr != nil || mgeom.Diff(before, afterObs) != "" {
@@ -1007,6 +1044,10 @@ func (prop) Execute(scAny any, phase string, log *core.Log) core.Result {
 			}
 			res.Steps++
 			log.Addf("%s recv %s srid %d", after, names[op.R], op.S)
+		}
+		if op.Q && oi != len(s.Ops)-1 {
+			res.Count("probe:operation-left-unobserved", 1)
+			continue
 		}
 		for k := 0; k < 2; k++ {
 			if tainted[k] {
